@@ -57,6 +57,7 @@ type interp struct {
 	pos      int
 	trace    []Decision
 	pc       []*smt.Term
+	pcSet    map[int]bool
 	steps    int
 	dead     bool
 	nondetN  map[string]int
@@ -254,8 +255,16 @@ func (in *interp) visitInstr(fr *frame, instr ssa.Instruction) continuation {
 		store(deref(instr.Addr.Type()), p, fr.get(instr.Val))
 
 	case *ssa.If:
+		cond := fr.get(instr.Cond)
+		if _, symbolic := cond.(*Sym); symbolic && !in.x.cfg.NoElide {
+			if join := in.elidable(instr); join != nil {
+				in.x.noteElided(instr)
+				fr.prevBlock, fr.block = fr.block, join
+				return kJump
+			}
+		}
 		succ := 1
-		if in.truth(fr.get(instr.Cond)) {
+		if in.truth(cond) {
 			succ = 0
 		}
 		fr.prevBlock, fr.block = fr.block, fr.block.Succs[succ]
